@@ -28,28 +28,28 @@ Proof. intros Hb HL Hc Pa Pb.
   destruct (call_bin_inv _ _ _ _ _ _ _ _ F Hc) as [-> [Hk [Him Ht]]].
   cbn [printable forallb]. rewrite Pa, Pb, Hk. cbn [andb]. destruct m.
   - (* a method: concat, coalesce *)
-    apply andb_prop in S as [S Hre]. apply andb_prop in S as [S Hf]. apply andb_prop in S as [Hi Hs].
-    apply negb_true_iff in Hi. subst i. rewrite Hs. cbn [andb]. apply String.eqb_eq in Hre. subst op'.
+    apply andb_prop in S as [S Hre]. apply andb_prop in S as [S Hf]. apply andb_prop in S as [S Hdu]. apply andb_prop in S as [Hi Hs].
+    apply negb_true_iff in Hi. subst i. rewrite Hs, Hdu. cbn [andb]. apply String.eqb_eq in Hre. subst op'.
     apply res_expr_eqb_refl. exact Hc.
   - apply andb_prop in S as [Hi S]. subst i. cbn [negb andb]. destruct (mem_str op' kops); [reflexivity|].
     cbn [orb] in S. apply andb_prop in S as [S Hp]. apply andb_prop in S as [Hm Hre]. rewrite Hm. cbn [andb].
-    apply String.eqb_eq in Hre. rewrite Hre. rewrite (res_expr_eqb_refl _ _ Hc). cbn [andb].
-    apply negb_true_iff in Hp. rewrite Hp. reflexivity. Qed.
+    apply String.eqb_eq in Hre. rewrite Hre. rewrite (res_expr_eqb_refl _ _ Hc). reflexivity. Qed.
 
-Lemma pow_printable a b e : call_method c "__pow__" a [b] = Ok e -> PR a = true -> PR b = true ->
-  expr_kf_ok e = true -> PR e = true.
-Proof. intros Hc Pa Pb Hkf.
+Lemma pow_printable a b e : call_method c "__pow__" a [b] = Ok e -> PR a = true -> PR b = true -> PR e = true.
+Proof. intros Hc Pa Pb.
   destruct (call_bin_inv "__pow__" "**" true false true a b e eq_refl Hc) as [-> [Hk [_ Ht]]].
   cbn [printable forallb]. rewrite Pa, Pb, Hk. cbn [andb negb]. change (mem_str "**" kops) with false. cbv iota.
   change (mem_str "**" bin2_ops) with true. change (remap op_remap "**") with "__pow__".
-  rewrite (res_expr_eqb_refl _ _ Hc). cbn [andb].
-  cbn [expr_kf_ok] in Hkf. apply andb_prop in Hkf as [_ Hz]. exact Hz. Qed.
+  rewrite (res_expr_eqb_refl _ _ Hc). reflexivity. Qed.
+
+Lemma py_neg_inf v v' : py_neg v = Some v' -> is_inf v' = is_inf v.
+Proof. destruct v; simpl; intros H; inversion H; reflexivity. Qed.
 
 Lemma not_printable a e : call_method c "__eq__" a [EVal (PBool false)] = Ok e -> PR a = true -> PR e = true.
 Proof. intros Hc Pa. apply (step_printable 3 "==" a (EVal (PBool false)) e); [reflexivity|simpl; tauto|exact Hc|exact Pa|reflexivity]. Qed.
 
-Lemma neg_printable a e : call_method c "__neg__" a [] = Ok e -> PR a = true -> expr_kf_ok e = true -> PR e = true.
-Proof. intros Hc Pa Hkf. unfold call_method in Hc. destruct (is_term a) eqn:Ht; [|discriminate Hc]. cbn [negb] in Hc.
+Lemma neg_printable a e : call_method c "__neg__" a [] = Ok e -> PR a = true -> PR e = true.
+Proof. intros Hc Pa. unfold call_method in Hc. destruct (is_term a) eqn:Ht; [|discriminate Hc]. cbn [negb] in Hc.
   change (find_method "__neg__" method_table) with (Some MNeg) in Hc. cbv iota beta in Hc.
   assert (Hu : forall x, (forall v, x <> EVal v) -> is_term x = true -> PR x = true -> uop_expr c "-" x true = Ok e -> PR e = true).
   { intros x Hnv Htx Px Hx. unfold uop_expr in Hx. destruct (is_none_value x); [discriminate Hx|].
@@ -57,7 +57,8 @@ Proof. intros Hc Pa Hkf. unfold call_method in Hc. destruct (is_term a) eqn:Ht; 
     destruct x; try reflexivity. exfalso. eapply Hnv. reflexivity. }
   destruct a as [n|v|vs|kvs|op i m p args]; try discriminate Ht.
   - apply (Hu (ECol n)); [discriminate|reflexivity|exact Pa|exact Hc].
-  - destruct (py_neg v) as [v'|]; [|discriminate Hc]. inversion Hc; subst. exact Hkf.
+  - destruct (py_neg v) as [v'|] eqn:Hn; [|discriminate Hc]. inversion Hc; subst. cbn [printable] in *.
+    rewrite (py_neg_inf _ _ Hn). exact Pa.
   - apply (Hu (EOp op i m p args)); [discriminate|reflexivity|exact Pa|exact Hc]. Qed.
 
 Lemma pos_printable a e : call_method c "__pos__" a [] = Ok e -> PR a = true -> PR e = true.
@@ -70,7 +71,7 @@ Lemma method_call_printable n self al e : is_dunder n = false ->
 Proof. intros Hd Hc Ps Pal. pose proof Hc as Hc0. unfold call_method in Hc. destruct (is_term self) eqn:Ht; [|discriminate Hc].
   cbn [negb] in Hc. destruct (find_method n method_table) as [sp|] eqn:F; [|discriminate Hc].
   pose proof (entry_ok_of n sp F) as Ok0. unfold entry_ok in Ok0. rewrite Hd in Ok0.
-  assert (Hm : forall op i m' args, i && m' = false -> m' = true -> negb (is_sym_text op) = true ->
+  assert (Hm : forall op i m' args, i && m' = false -> m' = true -> negb (is_sym_text op) && negb (is_dunder op) = true ->
                call_method c op self (tl args) = Ok (EOp op i m' None args) -> hd (ECol "") args = self ->
                args <> [] -> forallb PR args = true -> PR (EOp op i m' None args) = true).
   { intros op i m' args Him Hm' Hs Hcall Hhd Hne Pargs. subst m'. destruct i; [discriminate Him|].
@@ -92,12 +93,13 @@ Proof. intros Hd Hc Ps Pal. pose proof Hc as Hc0. unfold call_method in Hc. dest
     + destruct i.
       * apply andb_prop in Ok0 as [Ok0 Hp]. apply andb_prop in Ok0 as [Ok0 Hre]. apply andb_prop in Ok0 as [Hb Hnk].
         apply negb_true_iff in Hnk. apply negb_true_iff in Hp. apply String.eqb_eq in Hre.
-        cbn [printable forallb]. rewrite Ps, Po, Hk, Hnk, Hb, Hre, Hp. cbn [andb negb]. rewrite (res_expr_eqb_refl _ _ Hc0). reflexivity.
+        cbn [printable forallb]. rewrite Ps, Po, Hk, Hnk, Hb, Hre. cbn [andb negb]. rewrite (res_expr_eqb_refl _ _ Hc0). reflexivity.
       * cbn [printable forallb]. rewrite Ps, Po, Hk, Ok0. reflexivity.
   - discriminate Ok0.
   - (* MTri *)
     destruct al as [|x [|y [|? ?]]]; try discriminate Hc. cbn [forallb] in Pal. apply andb_prop in Pal as [Px Py]. apply andb_prop in Py as [Py _].
-    apply andb_prop in Ok0 as [Ok0 Hf]. apply andb_prop in Ok0 as [Ok0 Hs]. apply andb_prop in Ok0 as [Hmm Hi].
+    apply andb_prop in Ok0 as [Ok0 Hf]. apply andb_prop in Ok0 as [Ok0 Hdu]. apply andb_prop in Ok0 as [Ok0 Hs0].
+    apply andb_prop in Ok0 as [Hmm Hi]. assert (Hs : negb (is_sym_text op) && negb (is_dunder op) = true) by (rewrite Hs0, Hdu; reflexivity).
     subst m. apply negb_true_iff in Hi. subst i. apply finds_eq in Hf.
     unfold triop_expr in Hc. destruct (is_none_value self) eqn:Hn; [discriminate Hc|]. apply mk_expr_inv in Hc as [-> [Hk _]].
     apply Hm; try reflexivity; try discriminate; [exact Hs| |cbn [forallb]; rewrite Ps, Px, Py; reflexivity].
